@@ -54,9 +54,15 @@
        machine excluded are those using the artifact of (e).
    NOT PROVED: a static criterion on programs excluding re-entrancy (tree programs do, by C01/C03, but
    that is not connected here); anything about options other than KEEP_DEPENDENCIES (correspondence
-   only). *)
+   only).
+
+   SEVERAL CONTEXT FAULTS AT ONE SUSPENSION (proofs/MachineC20F.v).  pause_contexts / resume_contexts do not take the
+   parameter record (no option is read there); the theorems at the end of this file state WHICH error a task fails with
+   when more than one pause() - resp. resume() - raises within one call: the one raised LAST by pause() (the outermost
+   failing context: they are paused innermost first), the one raised FIRST by resume().  The check runs programs of
+   this class (generator knob p_ctx_stack, corpus _FAULT_STACKS) under every option variant against this model. *)
 From Asynq Require Import Machine Seq proofs.MachineC08 proofs.MachineC01 proofs.MachineC20 proofs.MachineSteps
-  proofs.MachineKeep.
+  proofs.MachineKeep proofs.MachineC20F.
 
 Theorem C20_outcome_independent_of_options_tree : forall P P' p n n' o o',
   pointwise P -> pointwise P' -> tree p ->
@@ -152,3 +158,44 @@ Theorem C20_guard_is_satisfiable :
   fst (run_case P 300 [keep_demo; keep_demo]) = [Some (Ok (VTuple [VInt 10; VInt 7])); Some (Ok (VTuple [VInt 10; VInt 7]))].
 Proof. exact keep_demo_guarded. Qed.
 Print Assumptions C20_guard_is_satisfiable.
+
+(* several context faults within one _pause_contexts / _resume_contexts *)
+Theorem C20_pause_contexts_is_a_fold : forall t s tk,
+  get_task t s = Some tk -> tk_cact tk = true ->
+  pause_contexts t s =
+  let '(s1, err) := pfold t (rev (tk_ctxs tk)) (set_task t (tk_with_ctxs tk (tk_ctxs tk) false) s, None) in
+  match err with Some e => accept_error t e s1 | None => s1 end.
+Proof. exact pause_contexts_pfold. Qed.
+Print Assumptions C20_pause_contexts_is_a_fold.
+
+Theorem C20_last_pause_error_wins : forall t cs c a,
+  snd (pfold t (cs ++ [c]) a) =
+  match snd (pause1 t c (fst (pfold t cs a))) with Some e => Some e | None => snd (pfold t cs a) end.
+Proof. exact pfold_last_wins. Qed.
+Print Assumptions C20_last_pause_error_wins.
+
+Theorem C20_outermost_failing_pause_wins : forall t c cs a e,
+  snd (pause1 t c (fst (pfold t (rev cs) a))) = Some e -> snd (pfold t (rev (c :: cs)) a) = Some e.
+Proof. exact pause_outermost_wins. Qed.
+Print Assumptions C20_outermost_failing_pause_wins.
+
+Theorem C20_resume_contexts_is_a_fold : forall t s tk,
+  get_task t s = Some tk -> tk_cact tk = false ->
+  resume_contexts t s =
+  let '(s1, err) := rfold t (tk_ctxs tk) (set_task t (tk_with_ctxs tk (tk_ctxs tk) true) s, None) in
+  match err with Some e => accept_error t e s1 | None => s1 end.
+Proof. exact resume_contexts_rfold. Qed.
+Print Assumptions C20_resume_contexts_is_a_fold.
+
+Theorem C20_first_resume_error_wins : forall t cs s e, snd (rfold t cs (s, Some e)) = Some e.
+Proof. exact rfold_first_wins. Qed.
+Print Assumptions C20_first_resume_error_wins.
+
+Theorem C20_two_context_faults_outer_error_either_keep : forall keep,
+  let P := mkP [] 1000000 keep [] in
+  fst (run_case P 2000 [two_faults (PauseRaises 1 11) (PauseRaises 1 12)]) = [Some (Err 11%Z)] /\
+  fst (run_case P 2000 [two_faults (ResumeRaises 1 11) (ResumeRaises 1 12)]) = [Some (Err 11%Z)] /\
+  fst (run_case P 2000 [two_faults NoFault (PauseRaises 1 12)]) = [Some (Err 12%Z)] /\
+  fst (run_case P 2000 [two_faults NoFault NoFault]) = [Some (Ok (VInt 7))].
+Proof. exact two_faults_outer_wins. Qed.
+Print Assumptions C20_two_context_faults_outer_error_either_keep.
